@@ -143,6 +143,44 @@ func isZero(t *core.Term) bool {
 
 var _ = ssa.Value(nil)
 
+// joinEOF: the end of one message is not the end of the joined stream: the
+// error of the current message's reader is returned by joinReader.Read only
+// where the path knows it is not io.EOF (io.Copy, bufio.Scanner and friends
+// would otherwise stop after the first message whose reader reports its last
+// bytes together with io.EOF).
+func (c *Ctx) joinEOF(rule string) {
+	fn := c.fn("(*joinReader).Read")
+	ok, why := true, "io.EOF of a message's reader is replaced before Read returns"
+	n := 0
+	c.explore(rule, fn, core.Opts{Unroll: 0, RecordLoads: true}, func(p *core.Path) {
+		if p.End != core.EndReturn || len(p.Results) != 2 {
+			return
+		}
+		var last *core.Event
+		for i := range p.Events {
+			if ev := &p.Events[i]; innerRead(ev) {
+				last = ev
+			}
+		}
+		if last == nil {
+			return
+		}
+		n++
+		le := p.X.ExtractOf(last.Result, 1, nil)
+		if strip(p.Results[1]) != le {
+			return
+		}
+		notEOF := hasLit(p, len(p.Lits), false, func(x *core.Term) bool {
+			return x.Kind == core.KEq && ((x.Args[0] == le && isEOFLoad(x.Args[1])) || (x.Args[1] == le && isEOFLoad(x.Args[0])))
+		})
+		isNil := hasLit(p, len(p.Lits), true, func(x *core.Term) bool { return isEqNil(x, func(y *core.Term) bool { return y == le }) })
+		if !notEOF && !isNil {
+			ok, why = false, "the path returning at "+c.P.Pos(p.Ret.Pos())+" hands the message reader's error to the caller without knowing it is not io.EOF: the end of one message ends the joined stream"
+		}
+	})
+	c.R.Check(rule, shortFn(fn), "message-eof-not-stream-eof", fn.Pos(), ok && n > 0, why)
+}
+
 // joinTerm: JoinMessages appends the terminator completely after every
 // message, whatever the size of the caller's buffer.  Accepted mechanisms: the
 // terminator is read through its own reader (io.MultiReader(msg,
